@@ -123,7 +123,7 @@ def run(ctx):
         init = rng.choice(["kmeans++", "kmeans++", "sample", "random"])
         kw = {}
         if init == "sample":
-            kw["initialize_sample_size"] = rng.randint(1, max(1, n - k))
+            kw["initialize_sample_size"] = rng.randint(1, max(1, n - k)) if rng.random() < 0.7 else rng.randint(n - 1, n + 3)
         elif init == "random":
             kw["initialize_with_kmeanspp"] = False
         drop = rng.choice([None, None, 1, 2, 3])
